@@ -117,6 +117,8 @@ def apply_model(model, op, data):
 def run_case(case):
     if case.get("mode") == "reset":
         return run_reset_case(case)
+    if case.get("mode") == "late":
+        return run_late_case(case)
     b = case["B"]
     rng = random.Random(case["seed"] * 7919 + 37)
     net = scenario.random_net(rng, allow_small_pipe=True)
@@ -443,6 +445,92 @@ def run_reset_case(case):
     return res
 
 
+def gen_late_case(seed):
+    rnd = random.Random(seed * 4243 + 7)
+    b = rnd.choice([7, 16, 64])
+    return {"mode": "late", "seed": seed, "B": b, "verb": rnd.choice(["RETR", "RETR", "STOR", "APPE"]), "len": rnd.choice([1, b, 3 * b + 1, 10 * b]), "between": rnd.choice([["CWD /e"], ["CWD /e"], ["CDUP"], ["CWD /e", "PWD"], ["USER anonymous"], ["NOOP"]]), "passive": rnd.choice(["EPSV", "PASV"]), "fs_delay": rnd.choice([None, [0.0005, 0.004]])}
+
+
+def run_late_case(case):
+    """The transfer command is accepted (1xx) while the data connection is not made yet; other
+    commands - CWD elsewhere, CDUP, a fresh login - are answered, and only then the peer
+    connects.  What is transferred is the file the command named when it was sent: a relative
+    name must not be read again against the working directory of a later moment."""
+    b = case["B"]
+    rng = random.Random(case["seed"] * 7919 + 47)
+    net = scenario.random_net(rng, allow_small_pipe=False)
+    mine = scenario.payload("/d/f", 5 * b + 3)
+    other = scenario.payload("/e/f", 4 * b + 1)
+    sc = {"seed": case["seed"], "server": {"block_size": b, "wait_future_timeout": 50.0}, "net": net, "fs": {"delay": case.get("fs_delay"), "tree": {"/d": None, "/e": None, "/d/f": 5 * b + 3, "/e/f": 4 * b + 1, "/f": 2 * b}}}
+    viol = []
+    info = {}
+    world = scenario.setup_world(sc)
+    with world:
+        server = scenario.finish_setup(world, sc)
+        peer = RawPeer(world, "s0", reply_timeout=300.0)
+        up = scenario.payload("up", case["len"])
+        verb = case["verb"]
+
+        async def main():
+            await server.start("127.0.0.1", 2121)
+            await peer.connect()
+            await peer.login()
+            await peer.cmd("CWD /d")
+            await peer.passive(case.get("passive", "EPSV"))
+            code, _ = await peer.cmd(f"{verb} f")
+            if code[0] != "1":
+                info["refused"] = code
+                return
+            info["between"] = [(await peer.cmd(line))[0] for line in case["between"]]
+            try:
+                await peer.data_connect()
+            except OSError:
+                info["no_data_connection"] = True
+                return
+            if verb == "RETR":
+                got, how = await peer.recv_all(timeout=100.0)
+                peer.data_close()
+            else:
+                await peer.send_all(up)
+                peer.data_close()
+            try:
+                final = (await peer.reply(100.0))[0]
+            except (ReplyTimeout, PeerGone):
+                final = None
+            info["final"] = final
+            snap = world.snapshot()
+            if verb == "RETR":
+                if final and final[0] == "2" and got != mine:
+                    what = "the bytes of /e/f" if got == other else ("the bytes of /f" if got == scenario.payload("/f", 2 * b) else f"{len(got)} other bytes")
+                    viol.append({"clause": "downloaded-bytes-differ", "subject": "retr:commands-before-data-connection", "detail": f"CWD /d, RETR f (150), then {case['between']} (answered {info['between']}), then the data connection: received {what} instead of the {len(mine)} bytes of /d/f"})
+            else:
+                want = up if verb == "STOR" else mine + up
+                if final and final[0] == "2" and (snap.get("/d/f") != want or snap.get("/e/f") != other or snap.get("/f") != scenario.payload("/f", 2 * b)):
+                    changed = [k for k, v in (("/d/f", want), ("/e/f", other), ("/f", scenario.payload("/f", 2 * b))) if snap.get(k) != v]
+                    viol.append({"clause": "stored-bytes-differ-at-completion-reply", "subject": f"{verb.lower()}:commands-before-data-connection", "detail": f"CWD /d, {verb} f (150), then {case['between']} (answered {info['between']}), then the data connection and {len(up)} bytes: reply {final}, but the files that differ from what this upload should have produced are {changed}"})
+            peer.close()
+            await asyncio.sleep(1)
+            await asyncio.wait_for(server.close(), 1e4)
+
+        world.run(main())
+        gc.collect()
+        if world.outcome not in ("ok", "budget", "deadlock"):
+            raise common.HarnessError(f"scenario failed: {world.outcome}: {world.error!r}")
+        res = {
+            "digest": world.digest([tuple(x[1:]) for x in peer.transcript]),
+            "nontrivial": info.get("final") is not None,
+            "vtime": world.loop.time() - 1000.0,
+            "events": world.net.seq,
+            "steps": world.loop.steps,
+            "outcome": world.outcome,
+            "counters": {"probe.commands_between_mark_and_data_connection": len(info.get("between") or ())},
+            "violations": _dedupe(viol),
+        }
+        if case.get("want_sample"):
+            res["sample"] = {"case": case, "info": {k: v for k, v in info.items()}}
+    return res
+
+
 def _first_diff(a, b):
     n = min(len(a), len(b))
     for i in range(n):
@@ -485,7 +573,7 @@ def minimise(case, violation):
 
     cur = copy.deepcopy(case)
     cur.pop("want_sample", None)
-    if cur.get("mode") == "reset":
+    if cur.get("mode") in ("reset", "late"):
         return cur, violation
     budget = 60
     changed = True
@@ -511,7 +599,7 @@ def minimise(case, violation):
 
 
 def selftest_cases(n):
-    return [gen_case(30_000 + i) for i in range(n - n // 4)] + [gen_reset_case(31_000 + i) for i in range(n // 4)]
+    return [gen_case(30_000 + i) for i in range(n - n // 4)] + [gen_reset_case(31_000 + i) for i in range(n // 4)] + [gen_late_case(32_000 + i) for i in range(n // 8)]
 
 
 def main(argv=None):
@@ -529,7 +617,7 @@ def main(argv=None):
         print("not reproduced")
         return 0
     quick = a.tier == "quick"
-    ev = common.Evidence(PROP, a.tier, a.seed, "exploration", "seeded swarm: block size in {1,2,7,16,64,100,1000,8191,8192,8193,65536} x 1..4 transfers (STOR, APPE, REST+STOR, REST+APPE, RETR whole / from offset) x payload length around block multiples x content kind (ramp, position-stamped, CR/LF/NUL/IAC runs, random) x client write chunking / read pattern x EPSV/PASV x throttle level x network (segmentation incl. 1-byte dribble, latency, pipe capacity down to 1 byte) x backend latency / short reads x concurrent observer session x 0..2 further sessions downloading the same file during a RETR; plus raw uploads whose data connection is reset; non-trivial = at least one transfer completed; distinct = distinct run digests")
+    ev = common.Evidence(PROP, a.tier, a.seed, "exploration", "seeded swarm: block size in {1,2,7,16,64,100,1000,8191,8192,8193,65536} x 1..4 transfers (STOR, APPE, REST+STOR, REST+APPE, RETR whole / from offset) x payload length around block multiples x content kind (ramp, position-stamped, CR/LF/NUL/IAC runs, random) x client write chunking / read pattern x EPSV/PASV x throttle level x network (segmentation incl. 1-byte dribble, latency, pipe capacity down to 1 byte) x backend latency / short reads x concurrent observer session x 0..2 further sessions downloading the same file during a RETR; plus raw uploads whose data connection is reset; plus raw transfers of a relative name with CWD / CDUP / USER answered between the 1xx mark and the data connection; non-trivial = at least one transfer completed; distinct = distinct run digests")
     rep = common.Reporter(PROP, ev)
     deadline = time.time() + (a.budget or (75 if quick else 1500))
     n = 2500 if quick else 300000
@@ -539,6 +627,8 @@ def main(argv=None):
                 yield gen_case(a.seed * 1_000_000 + i)
                 if i % 5 == 0:
                     yield gen_reset_case(a.seed * 1_000_000 + i)
+                if i % 10 == 3:
+                    yield gen_late_case(a.seed * 1_000_000 + i)
 
         cases = common.with_samples(gen(), 3)
         for case, res in pool.map(run_case, cases, deadline=deadline, chunksize=4):
